@@ -187,7 +187,7 @@ Lemma finish_secs c o pre :
   a_secs (finish_answer c o pre) = pre \/ a_secs (finish_answer c o pre) = map clear_mid pre.
 Proof.
   unfold finish_answer. destruct pre as [|p r]; [left; reflexivity|].
-  destruct (c_legacy c); [right; reflexivity|].
+  destruct (c_legacy c && negb (will_bundle c o)); [right; reflexivity|].
   destruct (negb (will_bundle c o) && _); [right|left]; reflexivity.
 Qed.
 
